@@ -1749,6 +1749,33 @@ pub fn run_case(case: &Case, stats: &mut Stats) -> RunReport {
                     let mut names: Vec<Tok> = first.env_reads.iter().map(|r| r.0.clone()).collect();
                     names.sort();
                     names.dedup();
+                    // R14 (names): the help of the top level mentions the (first) variable of
+                    // every visible env-backed item of that level - whatever it says about it
+                    if let Outcome::Stdout(text) = &first.outcome {
+                        for it in l.ix.iter().filter(|it| {
+                            it.level == 0
+                                && it.group.is_none()
+                                && it.ctx != Ctx::Other
+                                && !it.named.envs.is_empty()
+                                && (!it.named.shorts.is_empty() || !it.named.longs.is_empty())
+                                && !it.stack.iter().any(|w| matches!(w, W::Hide))
+                        }) {
+                            stats.bump("rule.R14names.evaluated");
+                            if !text.contains(it.named.envs[0]) {
+                                violation!(
+                                    "R14",
+                                    opi,
+                                    format!("rule=R14 help-omits-variable self={}", if it.is_flag { "flag" } else { "argument" }),
+                                    format!(
+                                        "item {:?} is visible and backed by {}, yet the help of its level does not mention that variable\n{}",
+                                        it.named,
+                                        it.named.envs[0],
+                                        describe(&first)
+                                    )
+                                );
+                            }
+                        }
+                    }
                     const PROBES: [&[u8]; 8] =
                         [b"7", b"a\n\nb", b"\n\n", b" x", b"\\", b"\"", b"", b"p\n\n\nq"];
                     for (k, name) in names.iter().take(3).enumerate() {
